@@ -293,7 +293,17 @@ class Models(Structural):
             return x
         return self.np_array(x)
 
-    @reg('numpy.array', 'numpy.asarray')
+    @reg('numpy.asarray', 'numpy.asanyarray', 'numpy.atleast_1d')
+    def np_asarray(self, x, dtype=None):
+        from .lib import dtype_name
+        if is_arr(x) and (dtype is None or dtype_name(dtype) == x.dtype) and len(x.shape) >= 1:
+            return x                                    # no copy: the result aliases the argument
+        r = self.np_array(x, dtype=dtype)
+        if len(r.shape) == 0:
+            r = self.np_reshape(r, 1)
+        return r
+
+    @reg('numpy.array')
     def np_array(self, x, dtype=None, copy=True):
         from .lib import dtype_name
         from .interp import ObjVal
